@@ -571,6 +571,54 @@ def check_strict_graphs(ctx, U):
     ctx.case({"strict": "graphs"}, True)
 
 
+def nested_consumer_types(ctx):
+    """Strict mode, an edge into a nested graph that holds TWO consumers of the input with different annotations
+    (1-2 levels deep): the producer must satisfy both, whatever the order of the inner node list."""
+    from hypergraph import FunctionNode, Graph, GraphConfigError
+
+    def mk(name, ann, out):
+        def f(x):
+            return x
+
+        f.__annotations__ = {"x": ann, "return": ann}
+        f.__name__ = name
+        return FunctionNode(f, name=name, output_name=out)
+
+    def prod_of(t):
+        def prod():
+            return None
+
+        prod.__annotations__ = {"return": t}
+        return FunctionNode(prod, name="prod", output_name="x")
+
+    for depth in (1, 2):
+        for first in ("int", "str"):
+            for ptype, ok in ((str, False), (int, False), (bool, False)):
+                a, b = mk("i1", int, "o1"), mk("i2", str, "o2")
+                inner = Graph([a, b] if first == "int" else [b, a], name="inner")
+                for _ in range(depth - 1):
+                    inner = Graph([inner.as_node()], name="mid")
+                ctx.obs["flaws_injected"] += 1
+                try:
+                    Graph([prod_of(ptype), inner.as_node()], strict_types=True)
+                    ctx.violation("C19:strict-graph:accepted:nested-second-consumer", f"depth {depth}, inner consumers listed {first}-first: a {ptype.__name__} producer feeds inner consumers annotated int AND str, accepted", {"depth": depth, "first": first, "producer": ptype.__name__})
+                except GraphConfigError:
+                    pass
+                except Exception as e:  # noqa: BLE001
+                    ctx.violation("C19:flaw-wrong-error:nested-second-consumer", f"raised {e!r}", {"depth": depth, "first": first})
+            # repaired: both consumers take what the producer gives
+            a, b = mk("i1", int, "o1"), mk("i2", int, "o2")
+            inner = Graph([a, b] if first == "int" else [b, a], name="inner")
+            for _ in range(depth - 1):
+                inner = Graph([inner.as_node()], name="mid")
+            ctx.obs["must_accept_checked"] += 1
+            try:
+                Graph([prod_of(bool), inner.as_node()], strict_types=True)
+            except Exception as e:  # noqa: BLE001
+                ctx.violation("C19:valid-graph-rejected:nested-consumers", f"depth {depth}: bool producer, two int consumers inside a nested graph: {e!r}", {"depth": depth, "first": first})
+    ctx.case({"strict": "nested-consumers"}, True)
+
+
 def run(ctx):
     n = 28 if ctx.tier == "quick" else 600
     core.WARM_P = 0.0
@@ -586,6 +634,7 @@ def run(ctx):
     if ctx.shard[0] == 0:
         U = check_types(ctx)
         check_strict_graphs(ctx, U)
+        nested_consumer_types(ctx)
         for label, spec, ok in independent_gates_cases():
             st, e = try_build(spec)
             ctx.obs["flaws_injected" if not ok else "must_accept_checked"] += 1
